@@ -46,7 +46,12 @@ fraction = st.one_of(st.text("0123456789", min_size=1, max_size=9), st.sampled_f
                      st.text("0123456789", min_size=10, max_size=30),
                      # exact half a microsecond (on S) followed by zeros and one late non-zero digit: only exact arithmetic rounds it up
                      st.builds(lambda pre, zeros, tail: pre + "0" * zeros + tail, st.sampled_from(["0000005", "0000015", "1234565", "9999995"]), st.integers(10, 40),
-                               st.sampled_from(["1", "9", "", "0"])))
+                               st.sampled_from(["1", "9", "", "0"])),
+                     # the decimal expansion of (k + 1/2) microseconds expressed in weeks/days/hours/minutes/seconds, cut after n digits (so just below the tie), then
+                     # as it is, or with a late digit appended, or rounded up in the last place: only exact arithmetic on all digits decides these
+                     st.builds(lambda unit, k, n, how: (lambda base: base if how == 0 else base + "1" if how == 1 else str(int(base) + 1).zfill(n) if how == 2 else base + "000001")(
+                         str((2 * k + 1) * 10**n // (2 * unit)).zfill(n)),
+                         st.sampled_from([604800 * 10**6, 86400 * 10**6, 3600 * 10**6, 60 * 10**6, 10**6]), st.integers(0, 40), st.integers(18, 50), st.integers(0, 3)))
 
 
 @st.composite
